@@ -3,4 +3,5 @@ INIT RInit
 NEXT RNext
 INVARIANT RLaws
 INVARIANT RExport
+INVARIANT TExportTie
 CHECK_DEADLOCK FALSE
